@@ -9,6 +9,7 @@ func main() {
 	defer cleanupDB()
 	hxlib.Main(&hxlib.Harness{Prop: "C14", Rule: rule, Generate: gen, NewExec: func(r *hxlib.Run) hxlib.Exec { return newWorld() }, Monitor: monitor,
 		Extra: func(r *hxlib.Run) map[string]any {
-			return map[string]any{"concurrent_scenarios": concStats.scenarios, "forced_waits": concStats.waits, "forced_wait_timeouts": concStats.timeouts}
+			return map[string]any{"concurrent_scenarios": concStats.scenarios, "forced_waits": concStats.waits, "forced_wait_timeouts": concStats.timeouts,
+				"hook_concurrent_scenarios": hconcStats.scenarios}
 		}})
 }
